@@ -109,6 +109,20 @@ Definition ref_mismatches (cases : list case) : list N :=
                         then match to_fblobs (k_blobs k) with Some B => ref_perms i 0 k B (case_orders k) | None => [] end
                         else []) 0 cases.
 
+(* ---- every blob of a premise-satisfying set (in blob-list order): class of the status that follows
+   from the blobs (right-hand side of C18_status_follows_from_blobs_partial) * 2 + whether the rebuild
+   must index it (C18_no_blob_lost_partial).  Order-free: evaluated once per case, compared by the
+   driver with Exists of the real metabase on every blob address after every enumeration order. *)
+Definition ref_all (k : case) : list N :=
+  if case_class k =? 0 then
+    match to_fblobs (k_blobs k) with
+    | Some B => map (fun b => class_of_status (status_of_blobs (k_q k) B (fb_c b) (fb_i b)) * 2 + b2n (must_know B b)) B
+    | None => []
+    end
+  else [].
+Definition ref_alls (cases : list case) : list N :=
+  flat_map (fun k => let l := ref_all k in N.of_nat (length l) :: l) cases.
+
 (* removed objects are reported by GetGarbage (C18_gc_reclaims), evaluated on the model state *)
 Definition gc_perm_ok (k : case) (ord : list nat) : bool :=
   let '(s, _) := model_after k ord in
